@@ -3,7 +3,7 @@
 A check that passes on the repaired tree must report the violation again when the fix is reverted."""
 import json, os, subprocess, re
 PROP = {  # substring of the commit subject -> property whose check must catch the reverted fix
- "tagged-template strings array": "C16", "PromiseResolve must test IsPromise": "C10", "onFinally must be called with this=undefined": "C10",
+ "tagged-template strings array": "C16", "Object(Symbol())": "C19", "space >= 2^63": "C19", "10 UTF-8 bytes": "C19", "all-ASCII flag": "C19", "array replacer lost keys": "C19", "JSON.parse(text, null)": "C19", "PromiseResolve must test IsPromise": "C10", "onFinally must be called with this=undefined": "C10",
  "ToInt32/ToUint32": "C05", "intToValue": "C05", "unary minus": "C05",
  "handleThrow kept a pointer": "C03", "unwinding an uncatchable error": "C03",
  "parseInt(": "C12", "JSON.stringify with an indent": "C19",
